@@ -29,6 +29,8 @@ type airStats struct {
 	OutcomeHist                                                                               map[string]int
 	Monitors, Notes, Samples                                                                  []string
 	AirDkg                                                                                    airTraceStats
+	// SelfSeeded: machines that kept the seed they generated at their first start, compared with a set_seed machine (airselfseed.go)
+	SelfSeeded int
 }
 
 type airRun struct {
@@ -904,6 +906,10 @@ func runAirDiff(outDir string, seed int64, tier string) {
 	}
 	for _, cf := range cfgs {
 		a.faultScenario(outDir, cf[0], cf[1])
+	}
+	a.selfSeedScenario(outDir, 2, 2)
+	if tier == "thorough" {
+		a.selfSeedScenario(outDir, 3, 2)
 	}
 	a.ops.Flush()
 	a.obs.Flush()
